@@ -57,6 +57,7 @@ fn main() {
         let case = &v["case"];
         let code = match prop.as_str() {
             "C20" => nqverif::c20::replay(case),
+            "C05" => nqverif::c05::replay(case),
             "C06" => nqverif::c06::replay(case),
             "C07" => nqverif::c07::replay(case),
             "C08" => nqverif::c08::replay(case),
@@ -72,6 +73,7 @@ fn main() {
     }
     let code = match prop.as_str() {
         "C20" => nqverif::c20::run(&args),
+        "C05" => nqverif::c05::run(&args),
         "C06" => nqverif::c06::run(&args),
         "C07" => nqverif::c07::run(&args),
         "C08" => nqverif::c08::run(&args),
